@@ -338,9 +338,78 @@ pub fn build(cfg: &GenCfg, r: &R17) -> Option<Case17> {
     Some(Case17 { hist, root, s1, s2, alpha: COEF[(r.p[3] % 8) as usize], beta: COEF[(r.p[4] % 8) as usize], prelude_dims })
 }
 
+/// The seed handed to `backward` is a CLONE of one of the program's own arrays (an operand, the other operand, the
+/// result itself) instead of a fresh array with the same values: the gradients must be the same, bit for bit.
+#[derive(Clone, Debug, Serialize, Deserialize)]
+pub struct AliasSeedCase {
+    pub op: OpKind,
+    pub dims: Vec<usize>,
+    /// 0: clone of operand 0; 1: clone of operand 1; 2: clone of the result; 3: a reshaped view of operand 1
+    pub which: u8,
+    pub vseed: u64,
+    pub both_tracked: bool,
+}
+
+impl CaseKind for AliasSeedCase {
+    const KIND: &'static str = "c17-alias-seed";
+    fn size(&self) -> usize {
+        self.dims.iter().product::<usize>() + 2
+    }
+    fn sample(&self) -> Value {
+        let what = ["operand 0", "operand 1", "the result", "a view of operand 1"][self.which as usize % 4];
+        json!({"op": format!("{:?}", self.op), "dims": self.dims, "seed_is_a_clone_of": what})
+    }
+    fn run(&self) -> Outcome {
+        let mut k = KeyHasher::new("alias-seed");
+        k.s(&format!("{:?}", self.op)).us(&self.dims).u(self.which as u64).b(self.both_tracked);
+        let classes = vec![format!("seed-alias:{}", self.which % 4)];
+        let n: usize = self.dims.iter().product();
+        let one = |aliased: bool| -> Result<Grads, String> {
+            let mut ex = Exec::new();
+            ex.step(&Step::Leaf { dims: self.dims.clone(), vals: gen_vals(self.vseed, n, VKind::PosInt), tracked: true })?;
+            ex.step(&Step::Leaf { dims: self.dims.clone(), vals: gen_vals(self.vseed ^ 9, n, VKind::PosInt), tracked: self.both_tracked })?;
+            ex.step(&Step::Apply(ApplySpec { op: self.op.clone(), args: vec![0, 1] }))?;
+            let src = match self.which % 4 {
+                0 => ex.get(0).clone(),
+                1 => ex.get(1).clone(),
+                2 => ex.get(2).clone(),
+                _ => ex.get(1).reshape(vec![n]).reshape(self.dims.clone()),
+            };
+            if src.dimensions() != ex.get(2).dimensions() {
+                return Err(format!("{}: the aliased array does not have the result's shape", HARNESS_DISCARD));
+            }
+            let seed = if aliased { src } else { arr(src.dimensions(), &f64s(src.values())) };
+            let root = ex.get(2).clone();
+            guarded(move || root.backward(Some(seed)))?;
+            Ok(ex.slots.iter().map(|s| s.as_ref().and_then(|a| a.gradient().as_ref().map(|g| (g.dimensions().to_vec(), f64s(g.values()))))).collect())
+        };
+        let fresh = match one(false) {
+            Ok(g) => g,
+            Err(p) => return Outcome::discard(&format!("the pass with a fresh seed does not run: {}", p)),
+        };
+        match one(true) {
+            Err(p) if is_discard(&p) => Outcome::discard(&p),
+            Err(p) => Outcome::fail("aliased-seed-panics", "aliased-seed-panics".into(), format!("{:?} on dims {:?}: the pass runs with a fresh seed but panics when the seed is a clone of {}: {}", self.op, self.dims, ["operand 0", "operand 1", "the result", "a view of operand 1"][self.which as usize % 4], p), k.finish(), classes),
+            Ok(g) => {
+                let same = g.len() == fresh.len() && g.iter().zip(&fresh).all(|(a, b)| match (a, b) {
+                    (None, None) => true,
+                    (Some((d1, v1)), Some((d2, v2))) => d1 == d2 && v1.len() == v2.len() && v1.iter().zip(v2).all(|(x, y)| x.to_bits() == y.to_bits()),
+                    _ => false,
+                });
+                if same {
+                    Outcome::pass(true, k.finish(), classes)
+                } else {
+                    Outcome::fail("aliased-seed", "aliased-seed-differs".into(), format!("{:?} on dims {:?}: gradients (operand 0, operand 1, result) with a fresh seed {:?}, with the seed being a clone of {}: {:?}", self.op, self.dims, fresh, ["operand 0", "operand 1", "the result", "a view of operand 1"][self.which as usize % 4], g), k.finish(), classes)
+                }
+            }
+        }
+    }
+}
+
 pub fn dispatch(kind: &str, v: &Value) -> Option<Outcome> {
     match kind {
         "c17" => serde_json::from_value::<Case17>(v.clone()).ok().map(|c| c.run()),
+        "c17-alias-seed" => serde_json::from_value::<AliasSeedCase>(v.clone()).ok().map(|c| c.run()),
         _ => None,
     }
 }
@@ -360,6 +429,18 @@ pub fn campaigns(ctx: &Ctx) -> Stats {
         let cfg = base_cfg(exact, t);
         let strat = move || (recipe_strategy(len), any::<[u8; 8]>(), any::<u64>()).prop_map(|(prog, p, vseed)| R17 { prog, p, vseed }).boxed();
         st.merge(ctx.run_prop(name, total / 2, strat, move |r| build(&cfg, r)));
+    }
+    // the seed is a clone of one of the program's own arrays
+    {
+        use OpKind::*;
+        let ops: Vec<OpKind> = vec![Add, Sub, Mul, Div, Axpy(2.0), CBMul, CBAdd, CMul, CAdd];
+        let shapes: Vec<Vec<usize>> = vec![vec![3], vec![2, 2], vec![1], vec![2, 1, 2]];
+        st.merge(ctx.run_indexed("seed-is-a-clone-of-a-program-array", (ops.len() * shapes.len() * 4 * 2) as u64, None, |i| {
+            let op = ops[i as usize % ops.len()].clone();
+            let dims = shapes[(i as usize / ops.len()) % shapes.len()].clone();
+            let which = ((i as usize / ops.len() / shapes.len()) % 4) as u8;
+            Some(AliasSeedCase { op, dims, which, vseed: i + ctx.seed, both_tracked: i as usize / ops.len() / shapes.len() / 4 == 1 })
+        }));
     }
     // a session: pass, optimizer update (learning rates incl. 0 and negative ones), then the pass whose seed varies -
     // the update cleared the parameter's gradient, so what the last pass stores is linear in its seed
